@@ -164,31 +164,45 @@ class ImplTimeout(BaseException):
     test must not swallow it)."""
 
 
-IMPL_LIMIT_S = 8.0
-
-
+IMPL_LIMIT_S = 2.0             # CPU seconds (ITIMER_PROF): independent of the load of the machine; a call needs < 1 ms of CPU
 _LIMIT_ACTIVE = [False]
+_STRIKES = [0]
+
+
+def current_limit() -> float:
+    """The limit shrinks once calls have been seen to hang in this process: a fault that makes every other input loop must not turn
+    a 30 s stage into hours (3 strikes at 2 s, 17 at 0.2 s, then 0.03 s of CPU per call - still 30x what a call needs)."""
+    n = _STRIKES[0]
+    return IMPL_LIMIT_S if n < 3 else IMPL_LIMIT_S / 10 if n < 20 else IMPL_LIMIT_S / 66
+
+
+def _on_prof(signum, frame):
+    if _LIMIT_ACTIVE[0]:
+        _STRIKES[0] += 1
+        raise ImplTimeout()
+
+
+_HANDLER_PID = [0]
 
 
 @contextlib.contextmanager
-def time_limit(seconds: float = IMPL_LIMIT_S):
-    """Bound one call into the implementation (a fault could make it loop). Only in a main thread (signals); elsewhere, and inside
-    another time_limit, unbounded (the outer limit applies)."""
+def time_limit(seconds: float | None = None):
+    """Bound the CPU time of one call into the implementation (a fault could make it loop). Only in a main thread (signals);
+    elsewhere, and inside another time_limit, unbounded (the outer limit applies).  The SIGPROF handler is installed once per
+    process; per call only the interval timer is armed and disarmed."""
     if _LIMIT_ACTIVE[0] or threading.current_thread() is not threading.main_thread():
         yield
         return
-
-    def on_alarm(signum, frame):
-        raise ImplTimeout()
-    old = signal.signal(signal.SIGALRM, on_alarm)
+    if _HANDLER_PID[0] != os.getpid():
+        signal.signal(signal.SIGPROF, _on_prof)
+        _HANDLER_PID[0] = os.getpid()
     _LIMIT_ACTIVE[0] = True
-    signal.setitimer(signal.ITIMER_REAL, seconds)
+    signal.setitimer(signal.ITIMER_PROF, seconds if seconds is not None else current_limit())
     try:
         yield
     finally:
-        signal.setitimer(signal.ITIMER_REAL, 0)
+        signal.setitimer(signal.ITIMER_PROF, 0)
         _LIMIT_ACTIVE[0] = False
-        signal.signal(signal.SIGALRM, old)
 
 
 def bounded(on_timeout):
@@ -253,8 +267,10 @@ def harden(ck: Ck) -> None:
 def guarded(pid: str, body, ck: Ck) -> None:
     """run(ck) of a check: infrastructure failures end as a clearly marked INCONCLUSIVE + the harness's INTERNAL-ERROR."""
     harden(ck)
+    del POOL_NOTES[:]
     try:
         body(ck)
+        ck.notes.extend(POOL_NOTES)
     except Inconclusive as e:
         print(f'INCONCLUSIVE property={pid}: {e} - the checking machine failed, not the source under test; no VIOLATION is claimed, re-run the check')
         raise
@@ -432,7 +448,7 @@ def translate_get_token_trees(ck: Ck) -> bool:
     return ok
 
 
-def get_token_tree_group(translated: bool, hs_rows: bool = False, next_char: bool = False) -> tuple | None:
+def get_token_tree_group(translated: bool, hs_rows: bool = False, next_char: bool = False, c02_property: bool = False) -> tuple | None:
     """(imports, obligations, name) for ck.instance_obligations / instance_obligations_parallel; None when the translator failed."""
     if not translated:
         return None          # translate:GtTrees_gen is already a failed obligation; the invalid trees carry no information
@@ -455,10 +471,12 @@ def get_token_tree_group(translated: bool, hs_rows: bool = False, next_char: boo
     })
     if next_char:
         obs['next_char_rows_are_the_model'] = 'next_char_rows_are_the_model'
+    if c02_property:
+        obs['c02_property_hypotheses_hold_for_todays_source'] = 'c02_property_hypotheses_hold_for_todays_source'
     return (GT_IMPORTS + (['SV.Text.NextChar', 'SV.Text.NextCharGen'] if next_char else []), obs, 'gtinst')
 
 
-def get_token_tree_obligations(ck: Ck, translated: bool, hs_rows: bool = False, res: dict | None = None) -> None:
+def get_token_tree_obligations(ck: Ck, translated: bool, hs_rows: bool = False, res: dict | None = None, c02_property: bool = False) -> None:
     """Instance obligations about the trees read from _get_token / _handle_comment (one per segment) and the state census.  When
     a tree differs from the model's function, the differing environments and (small scope, inside Coq) texts on which the
     code's trees and the hand model give different traces are reported; each such text is run on the implementation.
@@ -467,7 +485,7 @@ def get_token_tree_obligations(ck: Ck, translated: bool, hs_rows: bool = False, 
     if not translated:
         return
     if res is None:
-        g = get_token_tree_group(translated, hs_rows)
+        g = get_token_tree_group(translated, hs_rows, c02_property=c02_property)
         res = ck.instance_obligations(g[0], g[1], name=g[2])
     if res.get('next_char_rows_are_the_model') is False:
         ck.tie_broken.append('the table read from Tokenizer._next_char is not the table of the model Text/NextChar.v')
@@ -479,7 +497,7 @@ def get_token_tree_obligations(ck: Ck, translated: bool, hs_rows: bool = False, 
         cen = {k: v for k, v in side.get('state_census', {}).items() if v}
         ck.tie_broken.append(f'state census of _get_token/_handle_comment/_handle_string: {cen}')
         ck.notes.append(f'state census: {cen}')
-    if all(v for n, v in res.items() if not n.startswith(('tokenizer_', 'handle_string_', 'next_char_'))):
+    if all(v for n, v in res.items() if not n.startswith(('tokenizer_', 'handle_string_', 'next_char_', 'c02_property_'))):
         return
     ck.tie_broken.append('the decision trees read from Tokenizer._get_token/_handle_comment are not those of the model Text/Tokenizer.v')
     vals = ck.coq_eval(GT_IMPORTS, ['map (fun p => (fst p, firstn 6 (snd p), length (snd p))) gen_tree_diffs',
